@@ -240,6 +240,52 @@ class Gen:
         return s
 
 
+def query_product():
+    """type-directed product over one entity selection of the live model:
+    {plain, aggregate} x {no order, order_by} x {none, first/skip, after, before} x {no filter, field filter, having-filter},
+    paging values as literals and as variables; every request is executed on the live instance"""
+    out = []
+    n = [0]
+
+    def q(entity, params, fields):
+        n[0] += 1
+        ps = (" (" + ", ".join(params) + ")") if params else ""
+        out.append("query qp%d { %s%s { %s } }" % (n[0], entity, ps, " ".join(fields)))
+
+    # (selection, candidate orders [(order_by text, [(literal, variable) per order field])], having filters)
+    shapes = [
+        ("plain", ["name", "age", "nick"],
+         [("name asc", [('"b"', "$s1")]), ("age desc, name asc", [("3", "$i1"), ('"b"', "$s2")]), ("nick asc, name desc", [('"none"', "$s1"), ('"zz"', "$s2")])],
+         []),
+        ("aggregate", ["name", "c: count()"],
+         [("c asc, name asc", [("1", "$i1"), ('"b"', "$s1")]), ("name desc", [('"b"', "$s1")]), ("c desc", [("0", "$i2")])],
+         ["c > 0", "c >= $i1"]),
+        ("aggregate", ["nick", "m: max(age)", "c: count()"],
+         [("c asc, nick asc", [("1", "$i1"), ('"none"', "$s1")]), ("nick asc", [('"a"', "$s2")])],
+         ["c != 99"]),
+    ]
+    field_filters = [None, 'name != "zz"', "age > $i2", 'nick = "none"']
+    for kind, fields, orders, havings in shapes:
+        for order in [None] + orders:
+            pagings = [[], ["first 2"], ["skip 1"], ["first 2", "skip 1"]]
+            if order is not None:
+                vals = order[1]
+                for k in range(1, len(vals) + 1):
+                    for which in (0, 1):
+                        pagings.append(["after(%s)" % ", ".join(v[which] for v in vals[:k])])
+                        pagings.append(["before(%s)" % ", ".join(v[which] for v in vals[:k])])
+                pagings.append(["first 1", "after(%s)" % vals[0][0]])
+            else:
+                pagings += [["after(1)"], ["before($i1)"]]       # paging without order: refused by the semantic checks
+            filters = [[f] if f else [] for f in field_filters[:2 if order is None else 4]]
+            filters += [[h] for h in havings] + ([[havings[0], field_filters[1]]] if havings else [])
+            for paging in pagings:
+                for flt in filters:
+                    params = ([("order_by(%s)" % order[0])] if order else []) + paging + flt
+                    q("Person", params, fields)
+    return out
+
+
 def write_cases(path, ops, per_case=40):
     with open(path, "w") as f:
         for i in range(0, len(ops), per_case):
@@ -305,6 +351,10 @@ class C14(Cfg):
                 for src in ("var", "lit"):
                     for v in ("bool", "int", "float", "nan", "str00", "str01", "str10", "str11", "bin0", "bin1", "null"):
                         ops.append("adm t=%s n=%s src=%s v=%s" % (t, n, src, v))
+        for c in ("mut", "filter"):
+            for f in ("id", "room_id", "cdate", "mdate", "_entity", "_json", "_binary", "verifying_key", "_signature"):
+                for v in ("bool", "int", "float", "nan", "str00", "str01", "str10", "str11", "bin0", "bin1", "null"):
+                    ops.append("sysadm c=%s f=%s v=%s" % (c, f, v))
         for first in ("-", "0", "1", "2", "255"):
             for ln in (0, 1, 2, 32, 33, 34, 64):
                 if (first == "-") == (ln == 0): ops.append("key first=%s len=%d" % (first, ln))
@@ -321,6 +371,9 @@ class C14(Cfg):
         ops += ["alias a=" + hx(a) for a in ["x", "_x", "x1", "1x", "9", "été", "名前", "٣x", "x٣", "a b", "", "a-b", "a.b", "$a", "GROUP", "Group1", "_1"]]
         p = os.path.join(work, "alias.ops"); write_cases(p, ops, 60)
         res.append(("alias (all SQLite keywords and identifier shapes)", p, True))
+        ops = ["req k=query s=" + hx(t) for t in query_product()]
+        p = os.path.join(work, "qproduct.ops"); write_cases(p, ops, 80)
+        res.append(("query product (plain/aggregate x order x paging x filter), n=%d" % len(ops), p, True))
         # ---- grammar-derived and mutated texts
         n = 700 if tier == "quick" else 60000
         rnd = random.Random(seed * 7919 + 14)
